@@ -25,7 +25,7 @@ All theorems are about `HcipyVerif.Aperture` (Model/Aperture.lean), the model of
   `as_('cartesian')` (→ `evalPts`) for every other maker.
 
 All four are executed by the driver (`C12 eval sep|pts|polar`, `C12 regsub`, `C12 keck`, `C12 vlt`,
-`C12 super`, `C12 superstat`) and compared with the running code — values, and for the regular polygon also the
+`C12 super`, `C12 superstat`, `C12 superlist`) and compared with the running code — values, and for the regular polygon also the
 bounding slices / the mask and the sub-array that `func(grid, return_with_mask=True)` returns.
 
 Every statement holds for **all** axis lists (any length, unsorted, repeated values) and all
@@ -382,6 +382,38 @@ theorem supersampled_sum_bounds {s : Shape} (hb : Binary s) (hw : WF s) {nx ny :
     ∀ v ∈ f, 0 ≤ v ∧ v ≤ ((ny * nx : Nat) : Rat) :=
   supersampledStat_sum_bounds hb hw h
 
+/-! ### a list of generators (→ ModeBasis; `supersampledList`, driver op `C12 superlist`) -/
+
+/-- **the list form holds, in order, exactly the fields of its generators**: it succeeds iff every
+generator does (any statistic) -/
+theorem supersampled_list_ok_iff (st : Stat) (nx ny : Nat) (xs ys : List Rat) {ss : List Shape}
+    (hne : ss ≠ []) (fs : List (List Rat)) :
+    supersampledList st nx ny xs ys ss = .ok fs ↔
+      List.Forall₂ (fun s f => supersampledStat st s nx ny xs ys = .ok f) ss fs :=
+  supersampledList_ok_iff st nx ny xs ys hne fs
+
+/-- an empty list is rejected (ValueError from `ModeBasis`) -/
+theorem supersampled_list_empty (st : Stat) (nx ny : Nat) (xs ys : List Rat) :
+    supersampledList st nx ny xs ys [] = .error .value := rfl
+
+/-- a non-empty list fails exactly when, and as, its first generator does -/
+theorem supersampled_list_error_iff (st : Stat) (nx ny : Nat) (xs ys : List Rat) (s : Shape)
+    (rest : List Shape) (e : SuperErr) :
+    supersampledList st nx ny xs ys (s :: rest) = .error e ↔ supersampledStat st s nx ny xs ys = .error e :=
+  supersampledListAux_error_iff st nx ny xs ys s rest e
+
+/-- every mode of a supersampled list of binary apertures has values in [0,1] -/
+theorem supersampled_list_in_unit_interval {nx ny : Nat} {xs ys : List Rat} {s : Shape} {rest : List Shape}
+    (hs : ∀ t ∈ s :: rest, Binary t ∧ WF t) {fs : List (List Rat)}
+    (h : supersampledList .mean nx ny xs ys (s :: rest) = .ok fs) : ∀ f ∈ fs, ∀ v ∈ f, 0 ≤ v ∧ v ≤ 1 :=
+  supersampledListAux_mem_unit hs h
+
+/-- one mode per generator -/
+theorem supersampled_list_length {st : Stat} {nx ny : Nat} {xs ys : List Rat} {s : Shape} {rest : List Shape}
+    {fs : List (List Rat)} (h : supersampledList st nx ny xs ys (s :: rest) = .ok fs) :
+    fs.length = (s :: rest).length :=
+  supersampledListAux_length h
+
 /-! ## one sample per grid point
 
 The clause "the returned field is attached to the grid it was asked for" is about object identity
@@ -560,6 +592,11 @@ example : ∀ q ∈ [((2 : Rat), (3/5 : Rat), (4/5 + 1/1000 : Rat)), (1/2, 1, 1/
 example : |(3/5 : Rat) * (3/5) + (4/5 + 1/1000) * (4/5 + 1/1000) - 1| ≤ 1/500 ∧
     (1/500 : Rat) * sq 2 < |sq 2 - sq 1| := by
   unfold sq; constructor <;> norm_num [abs_le, abs_of_pos]
+
+example : ∃ fs, supersampledList .min 2 1 [0, 1] [0, 1, 2] [.circle 1 0 0, .disk 2] = .ok fs := by
+  obtain ⟨f, hf⟩ := (supersampledStat_isOk_iff .min (.circle 1 0 0) 2 1 [0, 1] [0, 1, 2]).mpr (by simp)
+  obtain ⟨g, hg⟩ := (supersampledStat_isOk_iff .min (.disk 2) 2 1 [0, 1] [0, 1, 2]).mpr (by simp)
+  exact ⟨[f, g], (supersampledList_ok_iff _ _ _ _ _ (by simp) _).mpr (List.Forall₂.cons hf (List.Forall₂.cons hg List.Forall₂.nil))⟩
 
 example : (vltSegment 3 (vltLines [((-1, -1), (-4, 0)), ((-1, -1), (0, -4)), ((1, 1), (4, 0)), ((1, 1), (0, 4))])
     (vltShape 4 (1/2) [] none) none).isSome = true := by decide +kernel
